@@ -14,7 +14,7 @@ func init() {
 		Doc: "Value-stack bound of the generic (interface{}) decoder: every push site `ADDQ $1,CX; CMPQ CX,$MAX_RECURSE; Jcc _stack_overflow` admits at most index MAX_RECURSE-1, the last element of the MAX_RECURSE-long Vt/Vp arrays (JAE, or JA against MAX_RECURSE-1); the stores into ST.Vt[CX]/ST.Vp[CX] follow the guard.",
 		Run: runK6})
 	register(&core.Rule{ID: "X1", Min: 5,
-		Doc: "Error values are well-formed: decoder/errors.calcBounds returns the whole source with zero caret widths whenever pos is outside [0,size) (first statement), clamps lbound at 0 and rbound at size, and produces both widths through clamp_zero; description() slices Src and repeats '.' only with calcBounds results. A negative Repeat count or an out-of-range slice would turn err.Error() into a panic.",
+		Doc: "Error values are well-formed: decoder/errors.calcBounds clamps pos into [0,size] before the window arithmetic and never returns the whole source as the window (a truncated document reports pos == size, so that form made the message as long as the input), clamps lbound at 0 and rbound at size, and produces both widths through clamp_zero; description() slices Src and repeats '.' only with calcBounds results. A negative Repeat count or an out-of-range slice would turn err.Error() into a panic.",
 		Run: runX1})
 	register(&core.Rule{ID: "K5", Min: 2,
 		Doc: "State-stack pointer reset at the pool boundary: generated code leaves sp non-zero on its error exits, so the pooled stack must be reset when it is put back or taken out: jitdec.freeStack (or newStack) assigns sp = 0 on every path; encoder vars.NewStack (or FreeStack) assigns sp = 0.",
@@ -128,30 +128,43 @@ func runX1(c *core.Ctx) {
 		return
 	}
 	lb, lw, rb, rw := results[0], results[1], results[2], results[3]
-	// (a) range guard first
-	guard := false
-	if len(fd.Body.List) > 0 {
-		if ifs, ok := fd.Body.List[0].(*ast.IfStmt); ok {
-			s := exprStr(ifs.Cond)
-			hi := strings.Contains(s, pos.Name()+" >= "+size.Name()) || strings.Contains(s, pos.Name()+" > "+size.Name())
-			lo := strings.Contains(s, pos.Name()+" < 0")
-			ret := false
-			for _, st := range ifs.Body.List {
-				if r, ok := st.(*ast.ReturnStmt); ok && len(r.Results) == 4 {
-					z1, ok1 := p.ConstInt(r.Results[1])
-					z3, ok3 := p.ConstInt(r.Results[3])
-					z0, ok0 := p.ConstInt(r.Results[0])
-					if ok1 && ok3 && ok0 && z1 == 0 && z3 == 0 && z0 == 0 && p.ExprObj(r.Results[2]) == size {
-						ret = true
-					}
+	// (a) positions outside the input: clamped into [0,size] before the window arithmetic; the
+	// older form (return the whole source) made the message as long as the input
+	hiClamp, loClamp := false, false
+	wholeSrc := token.NoPos
+	ast.Inspect(fd.Body, func(n ast.Node) bool {
+		switch x := n.(type) {
+		case *ast.IfStmt:
+			cs := exprStr(x.Cond)
+			for _, st := range x.Body.List {
+				as, ok := st.(*ast.AssignStmt)
+				if !ok || len(as.Lhs) != 1 || len(as.Rhs) != 1 || p.ExprObj(as.Lhs[0]) != pos {
+					continue
+				}
+				if (cs == pos.Name()+" > "+size.Name() || cs == pos.Name()+" >= "+size.Name()) && p.ExprObj(as.Rhs[0]) == size {
+					hiClamp = true
+				}
+				if v, ok := p.ConstInt(as.Rhs[0]); ok && v == 0 && cs == pos.Name()+" < 0" {
+					loClamp = true
 				}
 			}
-			if be, ok := ast.Unparen(ifs.Cond).(*ast.BinaryExpr); ok && be.Op == token.LOR && hi && lo && ret {
-				guard = true
+		case *ast.ReturnStmt:
+			if len(x.Results) == 4 && p.ExprObj(x.Results[2]) == size {
+				if z0, ok := p.ConstInt(x.Results[0]); ok && z0 == 0 {
+					wholeSrc = x.Pos()
+				}
 			}
 		}
+		return true
+	})
+	switch {
+	case wholeSrc != token.NoPos:
+		c.Bad("errors.calcBounds/range-guard", wholeSrc, "calcBounds returns the whole source as the context window for some positions (the JIT reports the input length for every truncated document): Error() / Description() of such an error is as long as the input, not bounded")
+	case hiClamp && loClamp:
+		c.OK("errors.calcBounds/range-guard", fd.Pos(), "pos is clamped into [0,size] before the window arithmetic")
+	default:
+		c.Bad("errors.calcBounds/range-guard", fd.Pos(), "calcBounds does not clamp pos into [0,size] before the window arithmetic: positions past the end (the JIT reports up to len+4 on EOF while skipping) or negative ones make the slice in description() panic")
 	}
-	c.Check(guard, "errors.calcBounds/range-guard", fd.Pos(), "pos outside [0,size) returns (0,0,size,0) first", "calcBounds no longer returns the whole-source/zero-width form for every pos outside [0,size): positions past the end (the JIT reports up to len+4 on EOF while skipping) reach the window arithmetic and make Error() panic")
 	// (b) widths through clamp_zero
 	okW := map[types.Object]bool{}
 	badW := token.NoPos
